@@ -401,7 +401,7 @@ def s_sim(draw, max_steps=60):
 def parts(tier):
     if tier == 'quick':
         return [Part('direct', check_direct, strategy=s_direct(), examples=400, shards=4),
-                Part('simulation', check_sim, strategy=s_sim(), examples=60, shards=4)]
+                Part('simulation', check_sim, strategy=s_sim(), examples=150, shards=4)]
     return [Part('direct', check_direct, strategy=s_direct(), examples=8000, shards=8),
             Part('simulation', check_sim, strategy=s_sim(150), examples=1500, shards=8)]
 
